@@ -44,6 +44,24 @@ void fail(const char *prop, const char *rule, const char *site, const std::strin
     rt::violation(prop, rule, site, d + " | history: " + (gHist.size() > 1500 ? "..." + gHist.substr(gHist.size() - 1500) : gHist));
 }
 
+// Physical layout of a buffer, for the coverage statistics only (which layouts were operated on): read from the private
+// members when the implementation has them under these names, otherwise estimated from element addresses through the
+// public interface - a re-implementation with other internals must still build and be judged.
+struct Layout { size_t cap, pos, size; bool wrapped; };
+template<class B> Layout layoutOf(const B &b) {
+    if constexpr (requires { b.m_pos; b.m_capacity; b.m_size; }) {
+        size_t cap = b.m_capacity, pos = (size_t) b.m_pos, size = b.m_size;
+        return {cap, pos, size, pos + size > cap};
+    } else {
+        size_t cap = b.capacity(), size = b.size(), pos = 0;
+        bool wrapped = false;
+        for (size_t i = 0; i + 1 < size; ++i)
+            if (&b[i + 1] < &b[i]) { wrapped = true; pos = cap > i + 1 ? cap - (i + 1) : 0; break; }   // elements 0..i end the block
+        if (!wrapped && size) pos = ((uintptr_t) &b[0] / sizeof(b[0])) % 3;                            // (offset unknown: a stable guess)
+        return {cap, pos, size, wrapped};
+    }
+}
+
 template<class T, bool OW>
 struct Runner {
     using Buf = tulz::RingBuffer<T, OW>;
@@ -74,12 +92,13 @@ struct Runner {
         ++C.opCount[opName];
         ++C.ops;
         if (x.b && !x.movedFrom) {
-            size_t cap = x.b->m_capacity, pos = (size_t) x.b->m_pos, size = x.b->m_size;
+            Layout lay = layoutOf(*x.b);
+            size_t cap = lay.cap, pos = lay.pos, size = lay.size;
             rt::Hash h;
             h.add((uint64_t) (uintptr_t) opName[0] * 131 + strlen(opName));
             h.add(cap); h.add(pos); h.add(size);
             C.layouts.insert(h.get());
-            if (pos + size > cap) { ++C.opOnWrapped[opName]; sawNontrivial = true; }
+            if (lay.wrapped) { ++C.opOnWrapped[opName]; sawNontrivial = true; }
             if (size == cap) { ++C.opOnFull[opName]; sawNontrivial = true; }
         }
     }
@@ -333,8 +352,8 @@ struct Runner {
         else if (r < 6) n = std::max<size_t>(1, x.m.size());                                 // exactly fits
         else if (r < 7) n = x.cap;                                                           // no-op
         else n = (size_t) rng.range(1, 24);
-        bool wrapped = (size_t) x.b->m_pos + x.b->m_size > x.b->m_capacity;
-        const char *nm = n < x.m.size() ? (wrapped ? "resize-cut-wrapped" : (x.b->m_pos ? "resize-cut-offset" : "resize-cut"))
+        Layout lay = layoutOf(*x.b);
+        const char *nm = n < x.m.size() ? (lay.wrapped ? "resize-cut-wrapped" : (lay.pos ? "resize-cut-offset" : "resize-cut"))
                          : n < x.cap ? "resize-shrink" : n == x.cap ? "resize-same" : "resize-grow";
         note(x, nm);
         log("rs#" + std::to_string(i) + "(" + std::to_string(n) + ")");
